@@ -10,7 +10,7 @@ from .boot import VERIF_DIR, HarnessError
 from .decider import Decider, derive_seed
 
 PLAN = {   # (batches, runs per batch)
-    'quick': {'C02': (16, 80), 'C17': (16, 50)},
+    'quick': {'C02': (16, 70), 'C17': (16, 45)},
     'thorough': {'C02': (96, 200), 'C17': (96, 200)},
 }
 N_GOLDEN_JOBS = 16
